@@ -539,7 +539,7 @@ def corr_aromatic(ck):
 # ---------------------------------------------------------------------------------------------------------------
 # (b2) whole molecules
 
-def observe(m, extra_ids=(), labels=True, totals=True, recalc=True, stored=False):
+def observe(m, extra_ids=(), labels=True, totals=True, recalc=True, stored=False, live=False):
     """all observations of one real molecule as a Coq boolean expression over its printed form (the molecule itself
     is not modified: every mutating call works on a copy)"""
     parts = []
@@ -560,7 +560,7 @@ def observe(m, extra_ids=(), labels=True, totals=True, recalc=True, stored=False
             a = c._atoms[n]
             parts.append(f'lab_case g {zraw(n)} {a.neighbors} {a.heteroatoms} {a.hybridization} {a.explicit_hydrogens}')
     if totals:
-        t = m.copy()
+        t = m if live else m.copy()      # live: the totals as THIS object answers them now (whatever it has cached), not those of a fresh copy
         br = pyres(lambda: dict(t.brutto), lambda d: lst(list(d.items()), lambda kv: tup(cstr(kv[0]), zraw(kv[1]))))
         try:
             mass_f = t.molecular_mass  # float(t) is the same value except on the empty molecule (known finding float-empty)
@@ -1207,11 +1207,40 @@ def gen_histories(ck, rng):
         for e2 in oriented:
             if {e1[0], e1[1]} != {e2[0], e2[1]}:
                 out.append(('C.C.C.C', [('bond',) + e1 + (1,), ('bond',) + e2 + (1,)], 'with' if (e1[0] + e2[1]) % 3 else 'skip'))
+    out += gen_remap_histories(ck, rng)
     starts = ['CCCCCC', 'CC.O.N', 'C=C.CO', 'OC(=O)CC.N', 'C1CC1.CC', 'CS.CCl', '[NH4+].CC([O-])=O', 'c1ccccc1.C', 'CC(C)C.O.O']
     starts += [x for x in corpus.sample(corpus.lipo(), 12 if ck.tier == 'quick' else 150, ck.seed, 'c04hist')]
     for smi in starts:
         for rep in range(6 if ck.tier == 'quick' else 20):
             out.append((smi, None, 'with' if rep % 3 else 'skip', rng.random()))
+    return out
+
+
+REMAP_STARTS = ['C[NH3+]', 'CC[O-]', 'C[CH2]', 'C[N+](C)(C)[O-]']
+
+
+def gen_remap_histories(ck, rng):
+    """renumbering inside ONE block - exhaustive small space: small charged / radical molecules x (nothing | a structural edit first) x
+    (every transposition of two existing atom numbers | a move to a fresh number) x (every atom x charge -1 / 0 / +1, radical flag on / off)
+    afterwards, the edit addressed by the NEW numbers; plus the same without the attribute edit under _skip_calculation.  The quick tier
+    takes the three smallest molecules, every charge edit after a structural edit and a seed-chosen part of the rest"""
+    from chython import smiles
+    out = []
+    quick = ck.tier == 'quick'
+    for smi in REMAP_STARTS[:3] if quick else REMAP_STARTS:
+        n0 = len(smiles(smi))
+        for prefix in (False, True):
+            atoms = list(range(1, n0 + 1)) + ([n0 + 1] if prefix else [])
+            pre = [('atom', 'C', 1, 1, n0 + 1)] if prefix else []
+            remaps = [((a, b_), (b_, a)) for i, a in enumerate(atoms) for b_ in atoms[i + 1:]] + [((1, n0 + 7),)]
+            for mp in remaps:
+                d = dict(mp)
+                now = [d.get(a, a) for a in atoms]
+                out.append((smi, pre + [('remap', mp)], 'skip'))
+                for k in now:
+                    for e in [('charge', k, c) for c in (-1, 0, 1)] + [('radical', k, f) for f in (False, True)]:
+                        if not quick or (rng.random() < 0.25 if not prefix else e[0] == 'charge' or rng.random() < 0.3):
+                            out.append((smi, pre + [('remap', mp), e], 'with'))
     return out
 
 
@@ -1274,16 +1303,53 @@ def run_history(smi, edits, mode, r):
             elif e[0] == 'charge':
                 m.atom(e[1]).charge = e[2]
                 touched.add(e[1])
+            elif e[0] == 'radical':
+                m.atom(e[1]).is_radical = e[2]
+                touched.add(e[1])
+            elif e[0] == 'remap':            # renumbering changes no valence state: the touched atoms keep being touched under their new numbers
+                mp = dict(e[1])
+                m.remap(mp)
+                new = {mp.get(k, k) for k in touched}
+                touched.clear()
+                touched.update(new)
     if mode == 'with':
         with m:
             apply(False)
     else:
-        if any(e[0] == 'charge' for e in edits):     # attribute setters are tracked by transactions only
-            edits = [e for e in edits if e[0] != 'charge']
+        if any(e[0] in ('charge', 'radical') for e in edits):     # attribute setters are tracked by transactions only
+            edits = [e for e in edits if e[0] not in ('charge', 'radical')]
         apply(True)
         m.fix_structure()
         m.fix_stereo()
     return m, edits, sorted(n for n in touched if n in m._atoms)
+
+
+def warm_totals(m):
+    """read (and thereby cache) formula, charge, radical flag and mass, as a user who looked at them before editing would"""
+    try:
+        return (dict(m.brutto), int(m), m.is_radical, m.molecular_mass)
+    except Exception:
+        return None
+
+
+def live_totals_bad(m):
+    """None, or (observed, expected): the totals the LIVE object answers vs the sums re-derived from its atoms (exact rationals for the mass)"""
+    if any(a.implicit_hydrogens is None for _, a in m.atoms()):
+        return None
+    from chython.periodictable import H
+    hm = exact_atomic_mass(H())
+    cnt = collections.Counter(a.atomic_symbol for _, a in m.atoms())
+    cnt['H'] += sum(a.implicit_hydrogens for _, a in m.atoms())
+    exp = ({k: v for k, v in cnt.items() if v}, sum(a.charge for _, a in m.atoms()), any(a.is_radical for _, a in m.atoms()))
+    ex = float(sum(exact_atomic_mass(a) + a.implicit_hydrogens * hm for _, a in m.atoms()))
+    try:
+        obs = ({k: v for k, v in m.brutto.items() if v}, int(m), m.is_radical)
+        mass = m.molecular_mass
+    except Exception as e:
+        return (type(e).__name__, [exp, ex])
+    if obs != exp or abs(mass - ex) > 1e-9 * max(1.0, ex):
+        return ([obs, mass], [exp, ex])
+    return None
 
 
 def MoleculeContainerOf(atom):
@@ -1462,6 +1528,7 @@ def corr_std_rules(ck):
         for call in ('standardize()', 'standardize(fix_tautomers=False)') + (('canonicalize()',) if tag[0] == 'smiles' else ()):
             m = m0.copy()
             s0 = valence_signature(m)
+            warm_totals(m)
             try:
                 eval('m.' + call, {'m': m})
             except Exception as e:
@@ -1479,6 +1546,10 @@ def corr_std_rules(ck):
             inp = {'molecule': str(m0), 'built_from': list(tag), 'call': call}
             loc = not any(int(bd) == 4 for *_, bd in m.bonds())
             bad = stored_states_ok(m) if loc else []
+            tb = live_totals_bad(m)
+            if tb:
+                capped.counterexample(f'std-totals:{tag}:{call}', f'the totals were read, then {call} was called: formula / charge / radical flag / mass answered afterwards are not the sums over the atoms',
+                                      inp, tb[0], tb[1], 'sums re-derived from the atoms of the result', replay_py=rp)
             if bad:
                 capped.counterexample(f'std-state:{tag}:{call}', f'after {call} an atom carries a hydrogen count that is not a valence state of its element, charge and bonds '
                                       '(a stale count: the rule engine changed the atom\'s bonds or charge and did not recalculate it), so check_valence() / the formula are wrong',
@@ -1494,15 +1565,47 @@ def corr_std_rules(ck):
                 except Exception:
                     ck.count('std-rules:rebuild raised')
             if len(cases) < (180 if ck.tier == 'quick' else 4000):
-                cases.append(f'(let g := {coqmol.mol_term(m)} in history_case g {lst(touched, zraw)} {b(loc)})')
+                cases.append(f'(let g := {coqmol.mol_term(m)} in history_case g {lst(touched, zraw)} {b(loc)})' + (' && ' + observe(m, labels=False, recalc=False, live=True) if len(cases) % 4 == 0 else ''))
                 meta.append((tag, call, touched, str(m)))
+    n_std = len(cases)
+    # the other in-place operations with the totals read BEFORE the call (isotope-labelled, charged, salt and complex inputs): the totals the LIVE
+    # result answers, its per-atom calc_implicit / check_implicit and stored_ok against the model
+    orng = random.Random(f'{ck.seed}:c04:opscorr')
+    from chython import smiles
+    for smi in OPS_LABELLED + OPS_EXTRA:
+        for relabel in (True, False):
+            try:
+                m0 = smiles(smi)
+                m0.kekule()
+                if relabel:
+                    m0 = labelled_copy(m0, orng)
+            except Exception:
+                continue
+            for op in OPS:
+                m = m0.copy()
+                warm_totals(m)
+                try:
+                    if not eval('m.' + op, {'m': m}):
+                        continue
+                except Exception:
+                    continue
+                ck.case(('op-corr', smi, relabel, op))
+                ck.count(f'ops-corr:{op}')
+                try:
+                    cases.append(observe(m, labels=False, recalc=False, live=True))
+                except Exception as e:
+                    cases.append(f'false (* observe failed: {type(e).__name__} *)')
+                meta.append((('op', smi, relabel), op, [], str(m)))
     ok, failing, log = coqcases.run_cases('c04s', IMPORTS_X, cases, extra=EXTRA, shard=150)
     good = ok and not failing
     ck.oblige(f'correspondence: results of standardize() / standardize(fix_tautomers=False) on the instantiation of every rule of its three tables (alone and 2..4 copies '
-              f'sharing the Any-atom, seed-chosen metals) and on covalently drawn metal-organic complexes ({len(cases)} results in which a valence state changed): the atoms whose '
+              f'sharing the Any-atom, seed-chosen metals) and on covalently drawn metal-organic complexes ({n_std} results in which a valence state changed; + {len(cases) - n_std} results of other operations): the atoms whose '
               'charge / radical flag / non-8 bonds changed (found by comparing input and result, never from the engine\'s own set) carry what the model\'s calc_implicit gives '
-              '(fresh_on), every stored count is a valence state for the model (stored_ok)', good, 'correspondence', log or str([meta[i] for i in failing[:6]]))
-    ck.extra['std_rule_cases'] = len(cases)
+              '(fresh_on), every stored count is a valence state for the model (stored_ok); every fourth result, and the results of the other in-place operations (neutralize, standardize_charges, '
+              'remove_coordinate_bonds, clean_isotopes, fix_resonance, salts) on labelled / charged / salt / complex inputs, with the totals READ BEFORE the call: formula, charge, radical flag, '
+              'mass as the live object answers them afterwards == model', good, 'correspondence', log or str([meta[i] for i in failing[:6]]))
+    ck.extra['std_rule_cases'] = n_std
+    ck.extra['ops_corr_cases'] = len(cases) - n_std
     if not good:
         ck.unchecked('correspondence ValenceArom.fresh_on / Valence.stored_ok on the results of the standardize rule engine', log[-1500:],
                      [repr(meta[i]) for i in failing[:20]])
@@ -1518,6 +1621,10 @@ def edit_code(e, kw):
         return f'm.add_bond({e[2]}, m.add_atom({e[1]!r}, {e[4]}{kw}), {e[3]}{kw})'
     if e[0] == 'del':
         return f'm.delete_atom({e[1]}{kw})'
+    if e[0] == 'remap':
+        return f'm.remap({dict(e[1])!r})'
+    if e[0] == 'radical':
+        return f'm.atom({e[1]}).is_radical = {e[2]}'
     return f'm.atom({e[1]}).charge = {e[2]}'
 
 
@@ -1810,6 +1917,7 @@ OPS_EXTRA = ['[NH4+].[Cl-]', 'CC(=O)[O-].[Na+]', 'C[NH3+]', 'CC(=O)O[Na]', 'C[N+
              'N(C)(C)(C)~[Pd](Cl)Cl', 'O~[Mg]', 'CO~[Li]', 'CC(=O)O~[Na]', 'C1=CC=CC1~[Fe]', 'CC(=O)O.[Na]', 'Cl[Na]', 'CC(=O)O[K]', 'C[Mg]Br', 'CCO[Na]', '[Na+].[Cl-].O', 'OS(O)(=O)=O.NC',
              '[2H]C([2H])O', '[13CH3][O-]', 'C[N+]([O-])=O', '[CH2-][N+]#N', 'C=[N+]=[N-]', 'NC(N)=[NH2+]', 'CC([O-])=CC(C)=[OH+]', 'C[N+]1=CC=CC=C1.[I-]', 'CC(=O)O[Mg]OC(C)=O', 'CC(=O)O[Ca]O',
              'CS[K]', 'C[O-]~[Na+]', 'OP(=O)(O)O[Na]', 'O=S(=O)(O[Li])C(F)(F)F', 'CN(C)~[Li]', 'Oc1ccccc1~[K]']
+OPS_LABELLED = ['CC(=O)O', 'CCN', 'C[NH3+].[Cl-]', 'OC(=O)CC[NH3+]', 'CC(=O)O[Na]', 'ClCCBr', 'CS(C)=O', 'N~[Cu]~N', 'C[N+](C)(C)C.[OH-]', 'O']
 ALKALI = {3, 11, 19, 37, 55, 87, 4, 12, 20, 38, 56, 88}
 
 
@@ -2106,12 +2214,16 @@ def search(ck):
     # bonds, resonance, isotopes): afterwards every stored count must be a valence state, and - when the input's counts were fresh and the
     # result has localised bonds - the result rebuilt from scratch must carry the same counts
     ops_pool = OPS_EXTRA + STD_COVALENT + corpus.sample(corpus.lipo(), 20 if ck.tier == 'quick' else 600, ck.seed, 'c04ops')
-    for smi in ops_pool:
+    ops_pool = [(smi, False) for smi in ops_pool] + [(smi, True) for smi in OPS_LABELLED + ops_pool[:25 if ck.tier == 'quick' else 300]]
+    for smi, relabel in ops_pool:
         try:
             m0 = smiles(smi)
             m0.kekule()
+            if relabel:      # seed-chosen isotope labels on up to three atoms (so that clean_isotopes has something to do)
+                m0 = labelled_copy(m0, random.Random(f'{ck.seed}:{smi}'))
         except Exception:
             continue
+        labs = [(n, a.isotope) for n, a in m0.atoms() if a.isotope]
         h_in = {n: a.implicit_hydrogens for n, a in m0.atoms()}
         try:
             fresh_in = h_in == {n: a.implicit_hydrogens for n, a in rebuild(m0).atoms()}
@@ -2119,16 +2231,26 @@ def search(ck):
             fresh_in = False
         for op in OPS:
             m = m0.copy()
+            warm_totals(m)           # the totals were looked at (hence cached) before the operation
             try:
                 changed = eval('m.' + op, {'m': m})
             except Exception as e:
                 ck.count(f'search:ops:{op} raised {type(e).__name__}')
                 continue
-            ck.case(('op-state', smi, op), nontrivial=bool(changed))
-            ck.count(f'search:ops:{op} ' + ('changed the molecule' if changed else 'left it alone'))
-            if not changed or any(int(bd) == 4 for *_, bd in m.bonds()):
+            ck.case(('op-state', smi, tuple(labs), op), nontrivial=bool(changed))
+            ck.count(f'search:ops:{op} ' + ('changed the molecule' if changed else 'left it alone') + (' (labelled input)' if labs else ''))
+            if not changed:
                 continue
-            rp = f"from chython import smiles; m = smiles({smi!r}); m.kekule(); print(m.{op}, str(m), [(n, a.atomic_symbol, a.charge, a.implicit_hydrogens, [h for h in range(9) if m.check_implicit(n, h)]) for n, a in m.atoms()], m.check_valence())"
+            setup = f"from chython import smiles; m = smiles({smi!r}); m.kekule()\nfor n, i in {labs!r}: m.atom(n).isotope = i\nm.flush_cache()\n"
+            tb = live_totals_bad(m)
+            if tb:
+                ck.counterexample(f'ops-totals:{op}:{smi}:{labs}', f'formula / charge / radical flag / mass were read, then {op} was called: the totals the molecule answers afterwards are not the sums over its atoms '
+                                  'incl. implicit hydrogens (a total cached before the operation survived it)', {'smiles': smi, 'isotope labels (atom, isotope)': labs, 'operation': op}, tb[0], tb[1],
+                                  'sums re-derived from the atoms of the result (exact rationals over the isotope tables for the mass)',
+                                  replay_py=setup + f"print(m.brutto, int(m), m.is_radical, float(m)); print(m.{op}); print(m.brutto, int(m), m.is_radical, float(m), [(a.atomic_symbol, a.isotope, a.charge, a.implicit_hydrogens) for _, a in m.atoms()])")
+            if any(int(bd) == 4 for *_, bd in m.bonds()):
+                continue
+            rp = setup + f"print(m.{op}, str(m), [(n, a.atomic_symbol, a.charge, a.implicit_hydrogens, [h for h in range(9) if m.check_implicit(n, h)]) for n, a in m.atoms()], m.check_valence())"
             bad = stored_states_ok(m)
             stale = {}
             if not bad and fresh_in:
